@@ -75,6 +75,7 @@ def run_behaviours(arena: Arena, behaviours: List[List[dict]]) -> Tuple[List, Li
         if done == len(todo):
             break
         broken.append(todo[done])
+        arena.__dict__.setdefault("break_reasons", {})[todo[done]] = (arena.last_end, arena.broke_at)
         todo = todo[done + 1:]
     return results, broken
 
@@ -83,10 +84,11 @@ def compare(chk: Check, arena: Arena, behaviours, results, broken, expected, blo
     nsteps = 0
     for i, beh in enumerate(behaviours):
         if i in broken:
-            st = beh[min(len(beh) - 1, max(0, arena.broke_at[1]))]
+            why, at = getattr(arena, "break_reasons", {}).get(i, (arena.last_end, arena.broke_at))
+            st = beh[min(len(beh) - 1, max(0, at[1]))]
             blk = blocks[st["block"]]
             chk.violation({"macro": blk.name, "what": "did-not-return"},
-                          f"{tag}: macro {blk.name} (n={blk.n}) never came back to a marker ({arena.last_end})", {"behaviour": beh, "block": blk.fj})
+                          f"{tag}: macro {blk.name} (n={blk.n}) never came back to a marker ({why})", {"behaviour": beh, "block": blk.fj})
             continue
         got, exp = results[i], expected.get(i)
         if got is None:
